@@ -83,10 +83,10 @@ def random_litmus(r, n):
 def family(seed, quick):
     r = Rng(seed ^ 0xC02)
     out = []
-    per = 12 if quick else 400
+    per = 12 if quick else 100
     for name, cfg, threads in shapes():
         out += instantiate(name, cfg, threads, per, r.fork(name))
-    out += random_litmus(r.fork("rnd"), 120 if quick else 4000)
+    out += random_litmus(r.fork("rnd"), 120 if quick else 1000)
     return list(dict.fromkeys(out))
 
 
